@@ -32,3 +32,16 @@ Theorem C18_close_is_last : forall cfg user send_ok fuel st c evs es res,
   exists l, es = l ++ [ECloseTransport].
 Proof. exact run_ends_with_close. Qed.
 Print Assumptions C18_close_is_last.
+
+(* translator obligations (lib/gen_statespace.py reads the structs, statics and mutable bindings of the
+   modelled code on every run): the code has the state the model represents and no other *)
+From Portus Require Import StateTie.
+From PortusGen Require Import StateSpace.
+From Coq Require Import String.
+Open Scope string_scope.
+Theorem C18_source_builder_state : impl_fields_RunBuilder = model_fields_RunBuilder.
+Proof. exact fields_RunBuilder_tie. Qed.
+Print Assumptions C18_source_builder_state.
+Theorem C18_source_handle_state : impl_fields_CCPHandle = model_fields_CCPHandle.
+Proof. exact fields_CCPHandle_tie. Qed.
+Print Assumptions C18_source_handle_state.
